@@ -89,6 +89,16 @@ const c08Fixed = `
   > {preview: rec}
 }
 
+@ POST /fixed/autos {
+  % db: Database
+  > db.autos.create({owner: input.owner})
+}
+
+@ GET /fixed/autos/count {
+  % db: Database
+  > {n: db.autos.length()}
+}
+
 @ GET /fixed/incr/:key {
   % redis: Redis
   > {n: redis.incr("ctr:" + key)}
@@ -111,7 +121,7 @@ type c08Case struct {
 	Clients [][]c08Req `json:"clients"`
 }
 
-var c08Kinds = []string{"sum", "sum", "genint", "genstr", "wrapint", "wrapstr", "create", "create", "get", "get", "put", "del", "preview", "incr", "shared", "sget", "sget", "sput", "crud", "peek", "pure", "pure", "pure"}
+var c08Kinds = []string{"sum", "sum", "genint", "genstr", "wrapint", "wrapstr", "create", "create", "get", "get", "put", "del", "preview", "incr", "shared", "sget", "sget", "sput", "crud", "peek", "auto", "auto", "pure", "pure", "pure"}
 
 func c08Profile() lang.Profile {
 	p := c02Profile()
@@ -141,6 +151,12 @@ func genC08(rt *rapid.T) c08Case {
 				}
 				for _, k := range seq {
 					rs = append(rs, c08Req{Kind: k, Arg: x})
+				}
+				continue
+			case "auto":
+				// a burst of creates that leave the id to the store
+				for k, n := 0, []int{1, 4, 16}[lang.Spread(rt, "burst", 3)]; k < n; k++ {
+					rs = append(rs, c08Req{Kind: "auto"})
 				}
 				continue
 			case "sum":
@@ -208,6 +224,8 @@ func (c *c08Case) request(client int, r c08Req) *http.Request {
 		return mk("GET", fmt.Sprintf("/fixed/incr/c%d", client), "")
 	case "shared":
 		return mk("GET", "/fixed/incr/shared", "")
+	case "auto":
+		return mk("POST", "/fixed/autos", fmt.Sprintf(`{"owner": "client-%d"}`, client))
 	case "sget":
 		return mk("GET", "/fixed/items/9999", "")
 	case "sput":
@@ -313,6 +331,8 @@ func runC08(c c08Case) evid.Outcome {
 	}
 	sharedSeen := map[string]bool{}
 	sharedCount := 0
+	autoIDs := map[string]string{}
+	autoCount := 0
 	for i := range c.Clients {
 		for j, r := range c.Clients[i] {
 			g, e := got[i][j], expected[i][j]
@@ -325,6 +345,22 @@ func runC08(c c08Case) evid.Outcome {
 					return evid.Failf("c08.provider-operation-not-atomic", "two concurrent redis.incr calls on one key returned the same value %s", g.Body)
 				}
 				sharedSeen[g.Body] = true
+				continue
+			}
+			if r.Kind == "auto" {
+				// ids are handed out by the store: any order is fine, but every create gets its own
+				autoCount++
+				if g.Panic != "" || g.Status != 200 || !strings.Contains(g.Body, fmt.Sprintf(`"owner":"client-%d"`, i)) {
+					return evid.Failf("c08.provider-operation-failed", "client %d request %d (create with a store-assigned id): %s", i, j, g)
+				}
+				id := g.Body[strings.Index(g.Body, `"id":`):]
+				if k := strings.IndexAny(id, ",}"); k > 0 {
+					id = id[:k]
+				}
+				if prev, dup := autoIDs[id]; dup {
+					return evid.Failf("c08.provider-operation-not-atomic", "two concurrent creates were given the same %s: %s and %s", id, prev, g.Body)
+				}
+				autoIDs[id] = g.Body
 				continue
 			}
 			if r.Kind == "sget" || r.Kind == "sput" {
@@ -355,6 +391,13 @@ func runC08(c c08Case) evid.Outcome {
 			return evid.Failf("c08.provider-operation-not-atomic", "%d concurrent redis.incr calls left the counter at %s", sharedCount, b)
 		}
 		labels = append(labels, "shared-counter")
+	}
+	if autoCount > 0 {
+		final := s.do(httptest.NewRequest("GET", "http://verif.test/fixed/autos/count", nil))
+		if b := normJSON(final.Body); b != fmt.Sprintf(`{"n":%d}`, autoCount) {
+			return evid.Failf("c08.provider-operation-not-atomic", "%d concurrent creates left %s records", autoCount, b)
+		}
+		labels = append(labels, "store-assigned-ids")
 	}
 	kinds := map[string]bool{}
 	for _, cl := range c.Clients {
